@@ -214,6 +214,16 @@ pub fn gen_line_program(
             st.ops.push("set_address.tombstone");
         } else {
             addr = next_base & mask;
+            if !plain && have(2) && r.chance(1, 4) {
+                // an advance that the following set_address overrides (valid DWARF; the
+                // converter must not let it leak into the converted rows); kept small so
+                // that the set_address is not a decrease (which would tombstone the sequence)
+                let adv = 1 + r.below(((addr / min_len.max(1)).min(6)).max(1));
+                if min_len.wrapping_mul(adv) <= addr {
+                    a.u8(2).uleb(adv);
+                    st.ops.push("advance_before_set_address");
+                }
+            }
             a.u8(0).uleb(1 + asz as u64).u8(2).uint(asz, addr);
             st.ops.push("set_address");
         }
@@ -358,6 +368,30 @@ pub fn gen_line_program(
                         }
                     }
                     "set_address.mid_sequence" if row > 0 && !(super::SKIP_VLIW_MID_SEQUENCE_SET_ADDRESS && max_ops > 1) => {
+                        if r.chance(1, 2) {
+                            // a dead advance (no row) immediately before the set_address
+                            match r.below(3) {
+                                0 if have(8) && mask > 0xffff => {
+                                    a.u8(8);
+                                    op_adv_apply(&mut addr, &mut op_index, (255 - opcode_base) / line_range);
+                                    st.ops.push("advance_before_set_address");
+                                }
+                                1 if have(9) && mask > 0xff => {
+                                    let operand = ((1 + r.below(8)) * min_len).min(0xffff);
+                                    a.u8(9).u16(operand as u16);
+                                    addr = addr.wrapping_add(operand);
+                                    op_index = 0;
+                                    st.ops.push("advance_before_set_address");
+                                }
+                                _ if have(2) => {
+                                    let adv = 1 + r.below(20);
+                                    a.u8(2).uleb(adv);
+                                    op_adv_apply(&mut addr, &mut op_index, adv);
+                                    st.ops.push("advance_before_set_address");
+                                }
+                                _ => {}
+                            }
+                        }
                         let bump = (if op_index > 0 { 1 + r.below(8) } else { r.below(8) }) * min_len;
                         addr = addr.wrapping_add(bump);
                         op_index = 0;
